@@ -14,7 +14,12 @@
 //!   spend(a) (= `enforce` with a `transfer(from,to,a)` contract context), set_spending_limit,
 //!   Advance(1), plus leaf probes (non-transfer / malformed contexts, no authenticated signer,
 //!   rule without installation, calls that are not signed by the account).
-//!   Bulk seeds: 999 / 1000 live history entries (the documented 1000-entry bound).
+//!   Bulk seeds: 999 / 1000 live history entries (the documented 1000-entry bound); they are
+//!   written straight into the policy's storage entry and proven, once per run, to be identical
+//!   to the state that 999 / 1000 real `enforce` calls produce (`validate_bulk_seeds`).
+//!   Not enumerated (outside the property's quantifier): negative amounts, authenticated lists
+//!   with duplicates or with signers that are not rule signers (the policies count the list they
+//!   are handed; the smart account only hands over distinct rule signers).
 //! * `account-batch` (thorough) – the `multisig-smart-account/account` example with the spending
 //!   policy attached to its default rule: `__check_auth` with ONE or TWO transfer contexts in a
 //!   single authorization batch.
@@ -756,6 +761,20 @@ impl PModel {
         let (now, p) = (self.now as u64, self.period as u64);
         self.live.retain(|(l, _)| (*l as u64) + p > now);
     }
+    /// Printable form of the live window (grouped by ledger when long).
+    fn show(&self) -> String {
+        if self.live.len() <= 8 {
+            return format!("{:?}", self.live);
+        }
+        let mut g: std::collections::BTreeMap<u32, (u32, i128)> = Default::default();
+        for (l, a) in &self.live {
+            let x = g.entry(*l).or_default();
+            x.0 += 1;
+            x.1 = x.1.saturating_add(*a);
+        }
+        let parts: Vec<String> = g.iter().map(|(l, (n, s))| format!("ledger {l}: {n} transfers totalling {s}")).collect();
+        format!("[{}]", parts.join("; "))
+    }
     fn window_sum(&self) -> Option<i128> {
         let mut s: i128 = 0;
         for (_, a) in &self.live {
@@ -1021,12 +1040,12 @@ impl World for Spend {
                 ensure!(
                     can == ok,
                     "can_enforce-agrees-with-enforce",
-                    "transfer of {} at ledger {}: can_enforce answered {} but enforce {}; authorized so far in the window: {:?}, limit {}",
+                    "transfer of {} at ledger {}: can_enforce answered {} but enforce {}; authorized so far in the window: {}, limit {}",
                     a,
                     m.now,
                     can,
                     if ok { "succeeded" } else { "failed" },
-                    m.live,
+                    m.show(),
                     m.limit
                 );
                 m.prune();
@@ -1037,10 +1056,10 @@ impl World for Spend {
                     ensure!(
                         fits,
                         "window-sum",
-                        "transfer of {} authorized at ledger {}: together with {:?} (authorized within the last {} ledgers) that exceeds the limit {} in force",
+                        "transfer of {} authorized at ledger {}: together with {} (authorized within the last {} ledgers) that exceeds the limit {} in force",
                         a,
                         m.now,
-                        m.live,
+                        m.show(),
                         m.period,
                         m.limit
                     );
@@ -1251,10 +1270,10 @@ impl World for Batch {
                     ensure!(
                         before + all <= m.limit,
                         "window-sum",
-                        "one authorization batch with transfers {:?} accepted at ledger {}: together with {:?} that exceeds the limit {}",
+                        "one authorization batch with transfers {:?} accepted at ledger {}: together with {} that exceeds the limit {}",
                         amounts,
                         m.now,
-                        m.live,
+                        m.show(),
                         m.limit
                     );
                     for a in amounts {
@@ -1289,15 +1308,15 @@ fn spend_world(tier: Tier, limit: i128, period: u32, start: u32) -> Spend {
 }
 
 fn bulk_world(tier: Tier) -> Spend {
-    // 999 and 1000 live entries; half of them (thorough also: one / none of them) leave the
-    // window after one more ledger
+    // 999 and 1000 live entries; half of them / exactly one of them (thorough also: none of
+    // them) leave the window after one more ledger
     Spend {
         limit: 1003,
         period: 2,
         start: 1,
         amounts: vec![0, 1, 4, 5],
         set_limits: vec![3, 2000],
-        bulk: tier.pick(vec![(500, 499), (500, 500)], vec![(500, 499), (500, 500), (1, 999), (0, 1000)]),
+        bulk: tier.pick(vec![(500, 499), (500, 500), (1, 999)], vec![(500, 499), (500, 500), (1, 999), (0, 1000)]),
         probe_depth: 1,
     }
 }
